@@ -1941,7 +1941,15 @@ class TestGraph(object):
         )
         pre_node.results = list(test_node.results)
         pre_node.started_worker = worker
-        status = await self.runner.run_test_node(pre_node)
+        # the first step runs on a separate node so reserve the current try on the actual
+        # root node for other workers that count its (shared) results while we are still here
+        pending_result = {"name": test_node.params["name"], "status": "UNKNOWN"}
+        test_node.results += [pending_result]
+        try:
+            status = await self.runner.run_test_node(pre_node)
+        finally:
+            # the second step will immediately add its own entry before any other worker is scheduled
+            test_node.results.remove(pending_result)
         if not status:
             logging.error(
                 "Could not configure the installation for %s on %s",
